@@ -332,9 +332,13 @@ fn classify_front_error(text: &str, r: &Rendered) -> String {
     let mut parts = first.splitn(4, ':');
     let (file, line) = (parts.next().unwrap_or(""), parts.next().unwrap_or("").parse::<usize>().unwrap_or(0));
     let msg = first.split("error: ").nth(1).unwrap_or("");
-    for (m, k) in KINDS {
-        if msg.starts_with(m) {
-            if let Some(p) = r.path_of(file, line) {
+    if let Some(p) = r.path_of(file, line) {
+        if p.starts_with("R:") {
+            // a declaration the generator made invalid on purpose
+            return format!("err:decl@{}", p.trim_end_matches(".0"));
+        }
+        for (m, k) in KINDS {
+            if msg.starts_with(m) {
                 return format!("err:{}@{}", k, p);
             }
         }
@@ -672,7 +676,7 @@ fn generate_wide(args: &Args, out: &mut Out, hist: &mut Hist) {
     let mut rng = Rng::new(args.seed ^ 0x17_17);
     for i in 0..n {
         let mut prng = rng.fork();
-        let prog = gen_wide(&mut prng, &WideOpts { allow_mesh: i % 3 != 0, ..WideOpts::default() });
+        let prog = gen_wide(&mut prng, &WideOpts { allow_mesh: i % 3 != 0, unsized_arrays: i % 5 == 0, ..WideOpts::default() });
         let s = prog.show();
         let on = rng.chance(1, 2);
         run_typer(on, &s, out, hist);
